@@ -30,7 +30,7 @@ VARIABLES phase,  \* "b" | "x" | "o" | "alg" | "done"
 vars == <<phase, b, x, o, form, alg, par, jd>>
 
 Tok == Letters \cup {Ellipsis}
-NoPar == [mode |-> "", eb |-> 0, tree |-> ""]
+NoPar == [mode |-> "", eb |-> 0, ex |-> 1, tree |-> ""]
 NoJd == [ctor |-> FALSE, ctorwhy |-> "", valid |-> FALSE, outs |-> <<>>, adj |-> "na", hasden |-> FALSE,
          den |-> <<>>, blocks |-> <<>>, xs |-> <<>>]
 
@@ -121,16 +121,19 @@ BlocksOf(p) ==
                                it |-> <<[sh |-> ShapeOf(b, "distinct", p.eb), off |-> 0],
                                         [sh |-> ShapeOf(b, "equal", p.eb), off |-> BSize("distinct", p.eb)]>>]
 XsOf(p) ==
-  CASE p.tree = "leaf"     -> [leaf |-> TRUE, it |-> <<ShapeOf(x, p.mode, 1)>>]
-    [] p.tree = "shared2"  -> [leaf |-> FALSE, it |-> <<ShapeOf(x, p.mode, 1), ShapeOf(x, p.mode, 1)>>]
+  CASE p.tree = "leaf"     -> [leaf |-> TRUE, it |-> <<ShapeOf(x, p.mode, p.ex)>>]
+    [] p.tree = "shared2"  -> [leaf |-> FALSE, it |-> <<ShapeOf(x, p.mode, p.ex), ShapeOf(x, p.mode, 1)>>]
     [] p.tree = "perleaf2" -> [leaf |-> FALSE, it |-> <<ShapeOf(x, "distinct", 1), ShapeOf(x, "equal", 1)>>]
 
 Params ==
   LET ebs == IF HasEll(b) THEN {0, 1} ELSE {0}
-  IN {[mode |-> m, eb |-> e, tree |-> "leaf"] : m \in (IF alg.ok THEN Modes ELSE ErrModes), e \in ebs}
+      \* the ellipsis of the leaf stands for one dimension, or for two (leaves of higher rank) in the pytree case
+      exs == IF HasEll(x) THEN {1, 2} ELSE {1}
+  IN {[mode |-> m, eb |-> e, ex |-> 1, tree |-> "leaf"] : m \in (IF alg.ok THEN Modes ELSE ErrModes), e \in ebs}
      \cup (IF WellWritten(form) /\ alg.ok
-           THEN {[mode |-> "distinct", eb |-> e, tree |-> "shared2"] : e \in ebs}
-                \cup {[mode |-> "mixed", eb |-> e, tree |-> "perleaf2"] : e \in ebs}
+           THEN {[mode |-> "distinct", eb |-> e, ex |-> f, tree |-> "shared2"] : e \in ebs, f \in exs}
+                \cup {[mode |-> "equal", eb |-> e, ex |-> 2, tree |-> "shared2"] : e \in ebs \cap (IF HasEll(x) THEN {0} ELSE {})}
+                \cup {[mode |-> "mixed", eb |-> e, ex |-> 1, tree |-> "perleaf2"] : e \in ebs}
            ELSE {})
 
 Judge(p) ==
@@ -209,7 +212,7 @@ RepeatedLetterIsAdjoint == (phase = "done" /\ jd.valid /\ alg.ok /\ Rep) => jd.a
 
 Emit == phase = "done" =>
           PrintT(<<"CASE", ToJson([b |-> b, x |-> x, o |-> o, form |-> form, sub |-> Written(form),
-                                   mode |-> par.mode, eb |-> par.eb, tree |-> par.tree,
+                                   mode |-> par.mode, eb |-> par.eb, ex |-> par.ex, tree |-> par.tree,
                                    blocks |-> jd.blocks, xs |-> jd.xs,
                                    ctor |-> jd.ctor, ctorwhy |-> jd.ctorwhy, valid |-> jd.valid, outs |-> jd.outs,
                                    tok |-> alg.ok, twhy |-> alg.why, tsub |-> IF alg.ok THEN ResultString(alg) ELSE <<>>,
